@@ -35,6 +35,29 @@ pub enum CMsg {
 #[cfg(feature = "cluster")]
 impl ractor::Message for CMsg {}
 
+/// The same request as a separate type, for calls through a `DerivedActorRef`
+pub struct DCall {
+    pub id: u64,
+    pub beh: Beh,
+    pub reply: RpcReplyPort<u64>,
+}
+#[cfg(feature = "cluster")]
+impl ractor::Message for DCall {}
+impl From<DCall> for CMsg {
+    fn from(d: DCall) -> CMsg {
+        CMsg::Call { id: d.id, beh: d.beh, reply: d.reply }
+    }
+}
+impl TryFrom<CMsg> for DCall {
+    type Error = ();
+    fn try_from(m: CMsg) -> Result<DCall, ()> {
+        match m {
+            CMsg::Call { id, beh, reply } => Ok(DCall { id, beh, reply }),
+            _ => Err(()),
+        }
+    }
+}
+
 pub struct FMsg(pub u64);
 #[cfg(feature = "cluster")]
 impl ractor::Message for FMsg {}
@@ -281,7 +304,7 @@ async fn vt_body(seed: u64, trace: Arc<Trace>) -> (Vec<String>, Vec<(String, Str
                 tr.log(Ev::Call { client: c as u32, op: "call", arg: id });
                 if api < 15 {
                     // the method, or the call!/call_t! macros (closure form and the form with arguments)
-                    let via = sp.below(4);
+                    let via = sp.below(5);
                     let from_macro = |m: Result<u64, ractor::RactorErr<CMsg>>| -> Result<CallResult<u64>, ractor::MessagingErr<CMsg>> {
                         match m {
                             Ok(x) => Ok(CallResult::Success(x)),
@@ -297,6 +320,16 @@ async fn vt_body(seed: u64, trace: Arc<Trace>) -> (Vec<String>, Vec<(String, Str
                         (2, Some(ms)) => from_macro(ractor::call_t!(callee, |reply| CMsg::Call { id, beh, reply }, ms)),
                         (1, None) => from_macro(ractor::call!(callee, CMsg::CallT, id, beh)),
                         (2, None) => from_macro(ractor::call!(callee, |reply| CMsg::Call { id, beh, reply })),
+                        (3, _) => {
+                            // through a DerivedActorRef (its own call path)
+                            let d = callee.get_derived::<DCall>();
+                            match d.call(|reply| DCall { id, beh, reply }, to).await {
+                                Ok(r) => Ok(r),
+                                Err(ractor::MessagingErr::SendErr(m)) => Err(ractor::MessagingErr::SendErr(m.into())),
+                                Err(ractor::MessagingErr::ChannelClosed) => Err(ractor::MessagingErr::ChannelClosed),
+                                Err(ractor::MessagingErr::InvalidActorType) => Err(ractor::MessagingErr::InvalidActorType),
+                            }
+                        }
                         _ => callee.call(|reply| CMsg::Call { id, beh, reply }, to).await,
                     };
                     let t1 = tr.now_ms();
@@ -325,7 +358,7 @@ async fn vt_body(seed: u64, trace: Arc<Trace>) -> (Vec<String>, Vec<(String, Str
                     }
                     tr.log(Ev::Ret { client: c as u32, op: "multicall", arg: id, res: 0 });
                 } else {
-                    let r = refs[0].call_and_forward(|reply| CMsg::Call { id, beh, reply }, &fwd, move |v: u64| FMsg(v ^ 0x5555), to);
+                    let r = refs[0].call_and_forward(move |reply| CMsg::Call { id, beh, reply }, &fwd, move |v: u64| FMsg(v ^ 0x5555), to);
                     match r {
                         Ok(h) => {
                             let res = h.await;
